@@ -213,8 +213,12 @@ def run(ctx):
            {'parameter_stored_into': held}, node=(esc[held[0][0]][0][1] if held else ch.node),
            construct=(ast.unparse(esc[held[0][0]][0][1])[:80] if held else 'self.cache = <copy>'))
     mod = ctx.prog.module('voltage.polyphase_filterbank')
-    mut_globals = [k for k, v in mod.globals.items() if isinstance(v, (ast.List, ast.Dict, ast.Set))]
-    cls_state = [ast.unparse(s)[:60] for s in cls.node.body if isinstance(s, ast.Assign)]
+    # (a module-level container that no function of the package modifies or re-binds is a constant table, not state;
+    #  a name a function uses as a memo -- `_W.setdefault(...)`, `_W[k] = v` -- is state whether or not it is defined there)
+    mg = ctx.prog.mutated_globals()
+    mut_globals = sorted({k for (mn, k) in mg if mn == mod.name})
+    cls_state = [ast.unparse(s)[:60] for s in cls.node.body if isinstance(s, ast.Assign)
+                 and not isinstance(s.value, (ast.Constant, ast.Tuple))]
     ctx.ob('EFFECTS', 'no module-level or class-level mutable state (filterbank objects are independent)', cls.qual,
            not mut_globals and not cls_state, {'module_globals': mut_globals, 'class_attrs': cls_state},
            construct='module/class state')
